@@ -31,6 +31,9 @@ pub struct GenCfg {
     pub chans: bool,
     /// select / select-then-keep
     pub select: bool,
+    /// per cent of the universes in which some programs run through the legacy capability API
+    /// while the others are returned as commands (one core, both API families)
+    pub mixed: u32,
     /// per cent of the universes whose first program is put behind a pending first part:
     /// `then(task awaiting a request, abortable(program))` - the shape in which a command can be
     /// aborted before it has been started
@@ -39,10 +42,10 @@ pub struct GenCfg {
 
 impl GenCfg {
     pub fn standard() -> Self {
-        GenCfg { depth: 3, max_acts: 30, abortable: true, task_aborts: true, retaining: true, legacy: false, again_weight: 2, start_weight: 1, wrap: false, scale: true, garbage_weight: 0, abort_weight: 1, drop_weight: 3, chans: true, select: true, behind_then: 4 }
+        GenCfg { depth: 3, max_acts: 30, abortable: true, task_aborts: true, retaining: true, legacy: false, again_weight: 2, start_weight: 1, wrap: false, scale: true, garbage_weight: 0, abort_weight: 1, drop_weight: 3, chans: true, select: true, mixed: 15, behind_then: 4 }
     }
     pub fn legacy() -> Self {
-        GenCfg { depth: 3, max_acts: 30, abortable: false, task_aborts: false, retaining: false, legacy: true, again_weight: 2, start_weight: 1, wrap: false, scale: true, garbage_weight: 0, abort_weight: 1, drop_weight: 3, chans: true, select: true, behind_then: 4 }
+        GenCfg { depth: 3, max_acts: 30, abortable: false, task_aborts: false, retaining: false, legacy: true, again_weight: 2, start_weight: 1, wrap: false, scale: true, garbage_weight: 0, abort_weight: 1, drop_weight: 3, chans: true, select: true, mixed: 15, behind_then: 4 }
     }
 }
 
@@ -176,20 +179,33 @@ fn wrap_in(c: Cmd, layer: u8) -> Cmd {
 
 pub fn universe(cfg: GenCfg) -> BoxedStrategy<Universe> {
     let layers = if cfg.wrap { prop::collection::vec(0u8..7, 1..7).boxed() } else { Just(vec![]).boxed() };
-    (prop::collection::vec(cmd(cfg), 1..3), proptest::option::weighted(0.5, (1u8..8, 0u8..3)), prop::collection::vec(act(cfg), 0..cfg.max_acts), layers, 0u32..100)
-        .prop_map(move |(mut programs, follow, acts, layers, behind)| {
-            if !cfg.legacy && cfg.abortable && behind < cfg.behind_then {
+    let legacy_style = GenCfg { abortable: false, task_aborts: false, retaining: false, legacy: true, ..cfg };
+    let mixed = if cfg.legacy || cfg.mixed == 0 { Just((0u32, 0u8, vec![])).boxed() } else { (0u32..100, 1u8..4, prop::collection::vec(cmd(legacy_style), 2)).boxed() };
+    (prop::collection::vec(cmd(cfg), 1..3), proptest::option::weighted(0.5, (1u8..8, 0u8..3)), prop::collection::vec(act(cfg), 0..cfg.max_acts), layers, 0u32..100, mixed)
+        .prop_map(move |(mut programs, follow, acts, layers, behind, (mixed_roll, mask, legacy_programs))| {
+            // one core, both API families: the chosen programs are replaced by programs written for
+            // the legacy API (which run inside `update`), the others stay commands
+            let mut legacy_mask = 0u8;
+            if mixed_roll < cfg.mixed && !legacy_programs.is_empty() {
+                for (p, lp) in legacy_programs.into_iter().enumerate() {
+                    if p < programs.len() && mask & (1 << p) != 0 {
+                        programs[p] = lp;
+                        legacy_mask |= 1 << p;
+                    }
+                }
+            }
+            if !cfg.legacy && cfg.abortable && behind < cfg.behind_then && legacy_mask & 1 == 0 {
                 let p = std::mem::replace(&mut programs[0], Cmd::Done);
                 programs[0] = Cmd::Then(Box::new(Cmd::Async(0, vec![Stmt::Await])), Box::new(Cmd::Abortable(0, Box::new(p))));
             }
-            if !cfg.legacy {
+            if !cfg.legacy && legacy_mask & 1 == 0 {
                 for l in layers {
                     let p = std::mem::replace(&mut programs[0], Cmd::Done);
                     programs[0] = wrap_in(p, l);
                 }
             }
             let n = programs.len() as u8;
-            let mut u = Universe { programs, follow: follow.map(|(m, p)| (m, p % n)), acts };
+            let mut u = Universe { programs, follow: follow.map(|(m, p)| (m, p % n)), acts, legacy_mask };
             sanitize(&mut u);
             u
         })
